@@ -2,7 +2,7 @@
  * removeCalAuthAndPublication, KSI_SignatureBuilder_applyCalendarHashChain, KSI_SignatureBuilder_open (signature_builder.c,
  * included), KSI_Signature_replacePublicationRecord (signature.c), tlv.c (KSI_TLV_new / getNestedList / appendNestedTlv /
  * replaceNestedTlv / free), list.c.  KSI_TlvTemplate_construct (filling the new element from the typed object, C10) is a
- * stub with a symbolic status.
+ * stub whose outcome is fixed per instance (success, or failure of the first / second call).
  * The signature element has NCH children with SYMBOLIC tags (13 bit); what is fixed per instance is NCH and whether the
  * signature has a calendar chain (HAS_CAL).  Representation invariant assumed (established by the parser's template):
  * the element has a 0x802 child exactly when the signature object has a calendar chain, and at most one.
@@ -37,6 +37,9 @@
 #ifndef MODE
 #define MODE 0
 #endif
+#ifndef CONSTRUCT_FAIL_AT
+#define CONSTRUCT_FAIL_AT -1
+#endif
 
 static int st_construct[2]; static unsigned n_construct; static const void *construct_payload[2];
 int KSI_TlvTemplate_construct(KSI_CTX *ctx, KSI_TLV *tlv, const void *payload, const KSI_TlvTemplate *tmpl) {
@@ -44,7 +47,9 @@ int KSI_TlvTemplate_construct(KSI_CTX *ctx, KSI_TLV *tlv, const void *payload, c
 	unsigned k = n_construct < 2 ? n_construct : 1;
 	n_construct++;
 	construct_payload[k] = payload;
-	st_construct[k] = ND(int, construct_status);
+	/* concrete outcome per instance (CONSTRUCT_FAIL_AT = index of the call that fails, -1 = none): a symbolic outcome makes the list
+	 * length symbolic after the merge of the success and failure paths inside replaceCalendarChain (measured: minutes instead of seconds) */
+	st_construct[k] = ((int)k == CONSTRUCT_FAIL_AT) ? KSI_INVALID_FORMAT : KSI_OK;
 	return st_construct[k];
 }
 static unsigned pub_freed; static KSI_PublicationRecord old_pub, new_pub;
@@ -145,6 +150,7 @@ void harness(void) {
 		CHECK(len == pos, "C08.H4 no other child: no old 0x803, no 0x805, nothing duplicated");
 		CHECK(sig->calendarAuthRec == NULL, "C08.H4 no calendar authentication record is left on the signature object");
 		CHECK(pub_freed == (has_oldpub ? 1u : 0u), "C08.H4 an old publication record object is released exactly once");
+#if CONSTRUCT_FAIL_AT < 0
 #if NCH >= 2 + HAS_CAL
 		if (t[0] == 0x801 && t[NCH - 1] == 0x801) WITNESS_POINT("aggregation chains kept first and last");
 #endif
@@ -158,6 +164,10 @@ void harness(void) {
 #if NCH == 0
 		WITNESS_POINT("empty signature element handled");
 #endif
+#if NCH == 1 && HAS_CAL
+		WITNESS_POINT("signature element with only a calendar chain handled");
+#endif
+#endif
 	} else {
 #if MODE == 0
 		/* the only step that can fail here is the construction of the new element: nothing may have changed */
@@ -165,9 +175,14 @@ void harness(void) {
 		for (unsigned i = 0; i < NCH; i++) { KSI_TLV *e = NULL; if (KSI_TLVList_elementAt(lst, i, &e) != KSI_OK || e != orig[i]) untouched = 0; }
 		CHECK(res_apply == st_construct[0] && untouched, "C08.H4 a failed construction of the new calendar element leaves the signature element untouched");
 		CHECK(sig->calendarChain == oldcal && newcal->ref == 1 && sig->publication == (has_oldpub ? &old_pub : NULL), "C08.H4 a failed apply leaves the signature object untouched");
+#if CONSTRUCT_FAIL_AT == 0
 		WITNESS_POINT("construction failure leaves everything untouched");
+#endif
 #else
+		CHECK(res_apply != KSI_OK || res_pub == st_construct[did_apply ? 1 : 0], "C08.H4 a failed construction of the publication element is reported");
+#if CONSTRUCT_FAIL_AT >= 0
 		WITNESS_POINT("failure path");
+#endif
 #endif
 	}
 }
